@@ -204,6 +204,7 @@ def run(prog: Program, rep: Report):
     r3_reset(prog, rep)
     r4_ring(prog, rep)
     r5_ring_slots(prog, rep)
+    r6_generic(prog, rep)
 
 
 def r1_emit(prog, rep: Report):
@@ -595,3 +596,34 @@ def r5_ring_slots(prog, rep: Report):
             rep.viol("C15.R5", g, "read-slot", f"`{src(e)}` is not (write offset - size + index) modulo the capacity: normal form "
                      f"{_norm_lin(lin)}", scenario="CircularBuffer(3): put 1,2,3,4 then buffer[0] must be 2 (the oldest of the last "
                                                      "three); a different slot expression returns another element", line=rd.lineno)
+
+
+def r6_generic(prog, rep: Report):
+    """the generic analyses instantiated on the three buffer classes"""
+    from .memo import public_entry_points, rule_derived_state
+    from .ownership import rule_no_class_state
+    buf = prog.cls("Buffer", BUF_MOD)
+    pb = prog.cls("PrintBuffer", BUF_MOD)
+    ring = prog.cls("CircularBuffer", "windpyutils.structures.circular_buffer")
+    bfb, bfp = BufferFacts(prog, buf), BufferFacts(prog, pb)
+    rep.rule("C15.R6", "derived state of the buffers is refreshed with its source: storage and cursor (ring: slots, write offset and "
+             "size) are the primary state; any other field written outside the constructor and read somewhere is re-assigned or "
+             "cleared on every path of every public operation that changes them", floor=3)
+    rule_derived_state(prog, rep, "C15.R6", buf, {bfb.storage, bfb.cursor}, public_entry_points(prog, buf), declare=False)
+    rule_derived_state(prog, rep, "C15.R6", pb, {bfp.storage, bfp.cursor}, public_entry_points(prog, pb), declare=False)
+    init = prog.method(ring, "__init__")
+    ring_fields = {dotted(t)[1] for n in walk_own(init.node) if isinstance(n, ast.Assign) for t in n.targets
+                   if dotted(t) and len(dotted(t)) == 2 and dotted(t)[0] == init.self_name}
+    mutated = set()
+    for f in ring.methods.values():
+        if f.name == "__init__" or f.self_name is None:
+            continue
+        for n in walk_own(f.node):
+            tg = n.target if isinstance(n, ast.AugAssign) else (n.targets[0] if isinstance(n, ast.Assign) else None)
+            while isinstance(tg, ast.Subscript):
+                tg = tg.value
+            d = dotted(tg) if tg is not None else None
+            if d and len(d) == 2 and d[0] == f.self_name and d[1] in ring_fields:
+                mutated.add(d[1])
+    rule_derived_state(prog, rep, "C15.R6", ring, mutated, public_entry_points(prog, ring), config=ring_fields - mutated, declare=False)
+    rule_no_class_state(prog, rep, "C15.R7", [buf, pb, ring])
